@@ -207,6 +207,32 @@ Definition allocate_opt (type_id : Z) (ks : keysrc) (label : list Z) : M Z :=
   id <- next_counter_id ;;;
   write_record id type_id ks label.
 
+(* the allocation up to and including the key (for KFunc: the point at which the user's key callback runs,
+   after it has written its key) and the rest of it; [allocate_opt_via_mid] (Proofs/CountersProofs.v) shows
+   that allocate_opt is the one followed by the other, so the state [alloc_mid] ends in is the state a reader
+   scheduled during the key callback looks at *)
+Definition write_head (id type_id : Z) (ks : keysrc) : M unit :=
+  _ <- put_meta id 0 ML (fun r => with_type_deadline r type_id NOT_FREE) ;;;
+  match ks with
+  | KOpt k => put_meta id OFF_KEY (zlen k) (fun r => with_key r k)
+  | KFunc k =>
+      _ <- readM (fun s => meta_access s id OFF_KEY MAXKEY) ;;;
+      if zlen k >? MAXKEY then (fun s => (CPanic, s)) else put_meta id OFF_KEY (zlen k) (fun r => with_key r k)
+  | _ => retM tt
+  end.
+Definition write_tail (id : Z) (label : list Z) : M Z :=
+  _ <- put_meta id OFF_LLEN (zlen label + 4) (fun r => with_label r label) ;;;
+  _ <- put_meta id 0 4 (fun r => with_state r ST_ALLOCATED) ;;;
+  retM id.
+Definition alloc_mid (type_id : Z) (ks : keysrc) (label : list Z) : M Z :=
+  if has_nul label then failM LabelNotConvertible else
+  if zlen label >? MAXLAB then failM LabelTooLong else
+  if key_ambiguous ks then failM KeyAmbiguous else
+  if key_too_long ks then failM KeyTooLong else
+  id <- next_counter_id ;;;
+  _ <- write_head id type_id ks ;;;
+  retM id.
+
 (* free: record offset, clock() + timeout on u64, deadline, state, push_back *)
 Definition free (m : mode) (id : Z) : M unit :=
   d <- readM (fun s => match addu64 m (now s) (timeout s) with Ok d => COk d | _ => CPanic end) ;;;
@@ -308,7 +334,10 @@ Inductive op :=
 | Free (id : Z)
 | SetVal (id v : Z)
 | SetClock (t : Z)
-| Dump.
+| Dump
+(* allocate_opt with a key callback that writes [k] and then looks at the counters through a reader on
+   the same buffers (for_each, counter_state of the id being allocated), as a concurrent reader would *)
+| AllocSnap (type_id : Z) (k : list Z) (label : list Z).
 
 Fixpoint zrange (a : Z) (n : nat) : list Z := match n with O => [] | S k => a :: zrange (a + 1) k end.
 
@@ -367,7 +396,9 @@ Definition dump_of (s : mgr) : dump :=
 
 Inductive obs :=
 | OStep (res : cres Z) (val_after : cres Z) (ids : cres (list Z))
-| ODump (d : dump).
+| ODump (d : dump)
+(* as OStep, plus what the key callback saw (empty when the callback did not run): for_each ids, counter_state(id) *)
+| OSnap (res : cres Z) (val_after : cres Z) (ids : cres (list Z)) (snap : list (cres (list Z) * cres Z)).
 
 (* one operation: observation and next state *)
 Definition step (m : mode) (o : op) (s : mgr) : obs * mgr :=
@@ -383,10 +414,17 @@ Definition step (m : mode) (o : op) (s : mgr) : obs * mgr :=
       (OStep (match r with COk _ => COk 0 | CErr e => CErr e | CPanic => CPanic end) (COk 0) (for_each_ids s1), s1)
   | SetClock t => let s1 := set_now s t in (OStep (COk 0) (COk 0) (for_each_ids s1), s1)
   | Dump => (ODump (dump_of s), s)
+  | AllocSnap t k label =>
+      let '(r, s1) := allocate_opt t (KFunc k) label s in
+      let snap := match alloc_mid t (KFunc k) label s with
+                  | (COk id, sm) => [(for_each_ids sm, counter_state sm id)]
+                  | _ => []
+                  end in
+      (OSnap r (match r with COk id => counter_value s1 id | _ => COk 0 end) (for_each_ids s1) snap, s1)
   end.
 
 Definition obs_panicked (o : obs) : bool :=
-  match o with OStep r _ _ => is_panic r | ODump _ => false end.
+  match o with OStep r _ _ => is_panic r | ODump _ => false | OSnap r _ _ _ => is_panic r end.
 
 (* the history stops at the first operation that panics (the harness does the same) *)
 Fixpoint run (m : mode) (ops : list op) (s : mgr) : list obs :=
